@@ -1,3 +1,4 @@
 from .iterator import *   # registers the units shared by C08 / C09 / C10
+from .image_iterator import *   # old-API ImageIterator (shared with C11)
 from .C08 import TRUSTED, ASSUMPTIONS
 NOT_DECIDED = []
